@@ -732,7 +732,108 @@ def prop_C06(ctx):
     return ctx.finish()
 
 
+# ---------------------------------------------------------------------------------------------- C14
+def prop_C14(ctx):
+    ctx.build()
+    q = ctx.tier == 'quick'
+    mp = gen.c14_member_cases(ctx.rng, 4000 if q else 40000)
+    tp = gen.c14_trait_cases(ctx.rng, 3000 if q else 30000)
+    total = 0
+    for name, pairs in (('member_repeat', mp), ('trait_repeat', tp)):
+        recs = ctx.run_set(name, [p[0] for p in pairs], vlib.obs_none)
+        keep = [(r, p[1]) for r, p in zip(recs, pairs)]
+        total += metamorphic(ctx, name + '_written_out', keep, 'writing the repeated instructions out', 'repeat vs written-out form, both expanded by the implementation',
+                             'repeat', compare='msgs')
+        ctx.cov[name + '_with_active_block'] = sum(1 for p in pairs if p[0].render() != p[1].render())
+    ctx.cov['repeat_pairs_compared'] = total
+    return ctx.finish()
+
+
+# ---------------------------------------------------------------------------------------------- C15
+def prop_C15(ctx):
+    ctx.build()
+    q = ctx.tier == 'quick'
+    bases = gen.c15_bases(ctx.rng, 400 if q else 3000)
+    brecs = ctx.run_set('valid_bases', bases, vlib.obs_msgs)
+    ok_bases = []
+    for r in brecs:
+        if vlib.outcome_class(r['out']) == 'ok':
+            ok_bases.append(r['item'])
+        else:
+            ctx.report(r, 'an input that breaks none of the documented rules is rejected: %s' % (r['out'] or '')[:300], 'valid-by-construction input', key='false-reject')
+    inj = gen.c15_injectors()
+    singles = []
+    for b in ok_bases:
+        for cls, name, f in inj:
+            it0 = b.clone()
+            it0.pos = ''
+            res = f(it0, ctx.rng)
+            if res is None:
+                continue
+            it, rx = res
+            it.meta = dict(b.meta, fault=name, faults=[(name, cls, rx, getattr(it, 'pos', ''))])
+            singles.append(it)
+    if q:
+        singles = sample(ctx.rng, singles, 5000)
+    CHILD_GROUP = {'child_without_child_parents', 'child_path_missing_in_child_parents', 'duplicate_default_type_level', 'duplicate_dedicated_type_level',
+                   'unknown_counterpart_type_level'}
+    REBUILDERS = {'untyped_nested_parent', 'unnamed_nested_member', 'trait_repeat_not_terminated', 'trait_repeat_overrides', 'parameter_set_twice',
+                  'unsupported_repeat_type', 'missing_error_type', 'superfluous_error_type', 'tuple_to_named_without_names', 'duplicate_instruction',
+                  'no_trait_instruction', 'duplicate_default_parent'}
+    pairs = []
+    for _ in range(2500 if q else 30000):
+        b = ctx.rng.choice(ok_bases)
+        (c1, n1, f1), (c2, n2, f2) = ctx.rng.sample(inj, 2)
+        # the second injection must not undo or rewrite what the first one put in place
+        if (n1 in CHILD_GROUP and n2 in CHILD_GROUP) or n2 in REBUILDERS or n1 == 'no_trait_instruction':
+            continue
+        it0 = b.clone()
+        it0.pos = ''
+        r1 = f1(it0, ctx.rng)
+        if r1 is None:
+            continue
+        pos1 = getattr(r1[0], 'pos', '')
+        r1[0].pos = ''
+        r2 = f2(r1[0], ctx.rng)
+        if r2 is None:
+            continue
+        it = r2[0]
+        it.meta = dict(b.meta, fault=n1 + '+' + n2, faults=[(n1, c1, r1[1], pos1), (n2, c2, r2[1], getattr(it, 'pos', ''))])
+        pairs.append(it)
+    stats = collections.Counter()
+    for name, items in (('single_fault', singles), ('fault_pairs', pairs)):
+        recs = ctx.run_set(name, items, vlib.obs_msgs)
+        for r in recs:
+            it = r['item']
+            oc = vlib.outcome_class(r['out'])
+            stats[name + ':' + oc] += 1
+            if oc == 'panic':
+                continue        # C16's subject
+            msgs = [m for m in vlib.err_msgs(r['out'])] if oc == 'err' else []
+            faults = it.meta['faults']
+            missing = [f for f in faults if not any(m is not None and re.search(f[2], m) for m in msgs)]
+            if not missing:
+                continue
+            has11 = any(f[1] == 11 for f in faults)
+            for (fname, cls, rx, pos) in missing:
+                if oc == 'ok':
+                    ctx.report(r, 'documented misuse (%s, on a %s) is accepted' % (fname, pos or 'type'), 'fault injection', key='accepted@%s:%s' % (pos, fname))
+                elif has11 and len(faults) == 2 and len(missing) == 1:
+                    # rule-11 / argument errors abort attribute parsing: the other fault is not reported in the same expansion
+                    ctx.report(r, 'two rules are broken but only one is reported (%s): missing %r' % (it.meta['fault'], rx), 'fault injection',
+                               key='early-return:rule11')
+                else:
+                    ctx.report(r, 'documented misuse (%s, on a %s) is rejected without the diagnostic naming it: missing %r, got %r'
+                               % (fname, pos or 'type', rx, msgs[:6]), 'fault injection', key='unreported@%s:%s' % (pos, fname))
+    ctx.cov['fault_classes'] = sorted(set(n for _, n, _ in inj))
+    ctx.cov['fault_outcomes'] = dict(stats)
+    return ctx.finish()
+
+
+
 PROPS = {
+    'C15': prop_C15,
+    'C14': prop_C14,
     'C06': prop_C06,
     'C05': prop_C05,
     'C04': prop_C04,
